@@ -9,24 +9,6 @@ func vSpecUntil(from, until int64, delta uint64) int64 {
 	return VIteI64(VAnd(from != 0, until == 0), from+int64(delta), until)
 }
 
-// VHarness_C05_parser_until: Parser.getAnchorUntil == the reference default, for every value of
-// every protocol parameter.
-func VHarness_C05_parser_until() {
-	var p protocol.Protocol
-	vHavocProtocol(&p, VBound("nlist", 1))
-	from, until := VNondetI64("from"), VNondetI64("until")
-	lim := int64(1) << 62
-	VAssume(VAnd(from > -lim, from < lim, until > -lim, until < lim, p.MaxOperationTimeDelta < uint64(lim)))
-	parser := &Parser{Protocol: p}
-	got := parser.getAnchorUntil(from, until)
-	if from != 0 && until == 0 {
-		VCover("defaulted")
-	} else {
-		VCover("explicit")
-	}
-	VAssert("C05/parser-until-eq-spec", got == vSpecUntil(from, until, p.MaxOperationTimeDelta))
-}
-
 // VHarness_C05_intake_window: at intake (batch=false) the server-time validator receives exactly
 // (anchorFrom, effective until) of the signed data, for update, recover and deactivate.
 func VHarness_C05_intake_window() {
